@@ -284,13 +284,35 @@ STRONG = {
     "Number of double excedance": lambda p: len(double_excedances(p)),
     "Number of double drops": lambda p: len(double_drops(p)),
 }
-WEAK = (
-    "Number of bounces",
-    "Number of foremaxima",
-    "Number of afterminima",
-    "Number of aftermaxima",
-    "Number of foreminima",
+def bounces(p):
+    """The bounce statistic as the documentation of count_bounces (FindStat St000133) describes
+    it, on positions: b_0 = 1 + position of the value 0, b_(k+1) = 1 + the largest position
+    among the values 0..b_k, until b reaches n; the statistic is the sum of n - b_k."""
+    n = len(p)
+    if n == 0:
+        return 0
+    pos = [0] * n
+    for i, v in enumerate(p):
+        pos[v] = i
+    total, b = 0, pos[0] + 1
+    while True:
+        total += n - b
+        if b >= n:
+            return total
+        b = 1 + max(pos[v] for v in range(b + 1))
+
+
+STRONG.update(
+    {
+        "Number of bounces": bounces,
+        # docstrings: a double ascent (descent) that is also a left-to-right / right-to-left maximum / minimum
+        "Number of foremaxima": lambda p: len(set(ascents(p, 2)) & set(ltrmax(p))),
+        "Number of afterminima": lambda p: len(set(ascents(p, 2)) & set(rtlmin(p))),
+        "Number of aftermaxima": lambda p: len(set(descents(p, 2)) & set(rtlmax(p))),
+        "Number of foreminima": lambda p: len(set(descents(p, 2)) & set(ltrmin(p))),
+    }
 )
+WEAK = ()
 # F6 defect model: the two "longest ... subsequence" statistics return the longest run
 F6_MODEL = {
     "Longest increasing subsequence": lambda p: longest_run(p, True),
